@@ -42,7 +42,7 @@ def apply_mutant(dst, mut):
         new = new.replace('\n', '\r\n')
     cnt = text.count(old)
     if cnt != mut.get('count', 1):
-        raise SystemExit(f"mutant {mut['name']}: expected {mut.get('count', 1)} occurrence(s) in {mut['file']}, found {cnt}")
+        raise ValueError(f"mutant {mut['name']}: expected {mut.get('count', 1)} occurrence(s) in {mut['file']}, found {cnt}")
     open(path, 'wb').write(text.replace(old, new).encode('utf-8'))
 
 
@@ -71,7 +71,12 @@ def main():
             if 'patch' in mut:
                 subprocess.run(['git', 'apply', '--directory', dst.lstrip('/'), '--unsafe-paths', mut['patch']], cwd='/', check=True)
             else:
-                apply_mutant(dst, mut)
+                try:
+                    apply_mutant(dst, mut)
+                except ValueError as e:
+                    print(f'{pid} BAD-MUTANT {e}', flush=True)
+                    results.append((mut['name'], False, None, -1))
+                    continue
             tests = None
             if a.tests:
                 p = subprocess.run(['/venv/bin/python', '-m', 'pytest', '-q', '-x', '-p', 'no:cacheprovider'], cwd=dst,
